@@ -145,11 +145,25 @@ def make_file(rng: random.Random, cfg: dict | None = None) -> dict:
             s[5] = f"{float(s[5]) + rng.choice([-0.5, 0.25, 1.0]):.6g}"
         return f"{s[0]:<60} {s[1]} {s[2]:<10} {s[3]:<10} {s[4]} {s[5]:<10} {s[6]}"
 
+    def vary_param(ln):
+        s = ln.split()
+        if len(s) == 4 and s[1] == "0" and rng.random() < 0.4:
+            # a free parameter given without a step size: unusual, legal
+            tags.add("free_parameter_with_zero_error")
+            return f"{s[0]:<50}{s[1]:<15}{s[2]:<15}0"
+        return ln
+
+    params = [vary_param(ln) for ln in params]
     decays = [vary(ln) for ln in all_decays]
     if any(ln.split()[1] == "0" for ln in decays):
         tags.add("free_coupling")
     if any(ln.split()[1] == "2" for ln in decays):
         tags.add("fixed_coupling")
+    if cfg.get("unconvertible"):
+        # a lineshape tag the grammar accepts and the converters do not implement: reading works, converting raises part-way
+        decays = [re.sub(r"rho\(770\)0\{", "rho(770)0[GounarisSakurai]{", d, count=1) if "rho(770)0{" in d else d for d in decays]
+        if any("GounarisSakurai" in d for d in decays):
+            tags.add("unimplemented_lineshape")
     sections = [decays, consts, params]
     if rng.random() < 0.3:
         rng.shuffle(sections)
@@ -198,6 +212,9 @@ def make_pool(seed: int, n: int, cfg: dict | None = None) -> list:
             c["cartesian"] = True
         if cfg.get("collisions") and len(pool) == 0:
             c["force_collision"] = True
+        if cfg.get("with_unconvertible") and len(pool) == 1:
+            c["unconvertible"] = True
+            c["force_top"] = ["D0{K*(892)bar0{K-,pi+},rho(770)0{pi+,pi-}}", "D0[P]{K*(892)bar0{K-,pi+},rho(770)0{pi+,pi-}}"]
         f = make_file(rng, c)
         key = tuple(f["resonances"])
         if f["name"] in seen or (key in seen and tries < 100):
